@@ -638,8 +638,30 @@ func (c *FnCtx) ghostAsserts(st *State, in ssa.Instruction) {
 		if g.cl.At != text || g.done {
 			continue
 		}
-		g.seen++
-		if g.seen != g.cl.AtOrd {
+		// the k-th occurrence of the anchor text in source order
+		if g.line == 0 {
+			g.line = -1
+			k := 0
+			first := c.eng.prog.Fset.Position(c.fn.Pos()).Line
+			last := first
+			if syn := c.fn.Syntax(); syn != nil {
+				last = c.eng.prog.Fset.Position(syn.End()).Line
+			}
+			lines := c.eng.srcLines[p.Filename]
+			for ln := first; ln <= last && ln-1 < len(lines); ln++ {
+				t := lines[ln-1]
+				if j := strings.Index(t, " //"); j >= 0 && !strings.Contains(t[j:], "\"") {
+					t = t[:j]
+				}
+				if strings.Join(strings.Fields(t), " ") == g.cl.At {
+					k++
+					if k == g.cl.AtOrd {
+						g.line = ln
+					}
+				}
+			}
+		}
+		if g.line != p.Line {
 			continue
 		}
 		g.done = true
@@ -868,6 +890,9 @@ func (c *FnCtx) zeroElems(st *State, base string, elem types.Type) {
 	walk = func(t types.Type, prefix string) {
 		if s, ok := t.Underlying().(*types.Struct); ok {
 			for i := 0; i < s.NumFields(); i++ {
+				if _, isArr := s.Field(i).Type().Underlying().(*types.Array); isArr {
+					continue
+				}
 				walk(s.Field(i).Type(), prefix+"."+s.Field(i).Name())
 			}
 			return
@@ -1048,7 +1073,7 @@ func (c *FnCtx) execConvert(st *State, in *ssa.Convert) Val {
 		ms := mapSort(2, sInt)
 		m := c.heapGet(st, "E$uint8", ms)
 		c.heapSet(st, "E$uint8", ms, sto(m, r, arr))
-		return VSlice{r, "0", s.Len, s.Len, to.Underlying().(*types.Slice).Elem()}
+		return VSlice{r, "0", s.Len, s.Len, to.Underlying().(*types.Slice).Elem(), ""}
 	case isByteSlice(from) && isString(to):
 		s := x.(VSlice)
 		m := c.heapGet(st, "E$uint8", mapSort(2, sInt))
@@ -1112,7 +1137,7 @@ func (c *FnCtx) execIndexAddr(st *State, in *ssa.IndexAddr) Val {
 	case *types.Slice:
 		s := x.(VSlice)
 		c.oblige(st, "index", c.anchor(in), in.Pos(), and(le("0", i), lt(i, s.Len)), "index within slice length", nil)
-		return VPtr{Root: rootElem, Ref: s.Base, Idx: c.define("idx", sInt, plus(s.Off, i)), T: t.Elem()}
+		return VPtr{Root: rootElem, Ref: s.Base, Idx: c.define("idx", sInt, plus(s.Off, i)), T: t.Elem(), Reg: s.Reg}
 	case *types.Pointer:
 		arr := t.Elem().Underlying().(*types.Array)
 		p := c.ptrOf(x)
@@ -1152,7 +1177,7 @@ func (c *FnCtx) execSlice(st *State, in *ssa.Slice) Val {
 	case VSlice:
 		lo, hi, mx := get(in.Low, "0"), get(in.High, v.Len), get(in.Max, v.Cap)
 		c.oblige(st, "slice", c.anchor(in), in.Pos(), and(le("0", lo), le(lo, hi), le(hi, mx), le(mx, v.Cap)), "slice bounds within capacity", nil)
-		return VSlice{v.Base, c.define("soff", sInt, plus(v.Off, lo)), c.define("slen", sInt, minus(hi, lo)), c.define("scap", sInt, minus(mx, lo)), v.Elem}
+		return VSlice{v.Base, c.define("soff", sInt, plus(v.Off, lo)), c.define("slen", sInt, minus(hi, lo)), c.define("scap", sInt, minus(mx, lo)), v.Elem, v.Reg}
 	case VPtr:
 		// pointer to array
 		at, ok := in.X.Type().Underlying().(*types.Pointer).Elem().Underlying().(*types.Array)
@@ -1163,7 +1188,7 @@ func (c *FnCtx) execSlice(st *State, in *ssa.Slice) Val {
 		n := fmt.Sprint(at.Len())
 		lo, hi, mx := get(in.Low, "0"), get(in.High, n), get(in.Max, n)
 		c.oblige(st, "slice", c.anchor(in), in.Pos(), and(le("0", lo), le(lo, hi), le(hi, mx), le(mx, n)), "array slice bounds", nil)
-		return VSlice{c.arrayBase(v), lo, c.define("slen", sInt, minus(hi, lo)), c.define("scap", sInt, minus(mx, lo)), at.Elem()}
+		return VSlice{c.arrayBase(v), lo, c.define("slen", sInt, minus(hi, lo)), c.define("scap", sInt, minus(mx, lo)), at.Elem(), ""}
 	}
 	panic(unsupported("Slice on %T", x))
 }
@@ -1175,7 +1200,7 @@ func (c *FnCtx) execMakeSlice(st *State, in *ssa.MakeSlice) Val {
 	elem := in.Type().Underlying().(*types.Slice).Elem()
 	r := c.allocRef(st, "mk")
 	c.zeroElems(st, r, elem)
-	return VSlice{r, "0", l, cp, elem}
+	return VSlice{r, "0", l, cp, elem, ""}
 }
 
 func (c *FnCtx) execTypeAssert(st *State, in *ssa.TypeAssert) Val {
